@@ -182,6 +182,12 @@ func (o *c02) State(c *core.Ctx) {
 		for _, l := range lists {
 			o.httpVerify(c, api, hdr, longest, excess, l)
 		}
+		// items that leave fields out, sent after the full requests above: an omitted field is the
+		// zero value, whatever earlier requests carried
+		gr := longest[0].Raw.Merkle.Hex()
+		o.httpVerifyRaw(c, api, hdr, longest, excess, []byte(`[{"merkleRoot":"`+gr+`"}]`), []mrItem{{gr, 0}})
+		o.httpVerifyRaw(c, api, hdr, longest, excess, []byte(fmt.Sprintf(`[{"blockHeight":%d}]`, tip)), []mrItem{{"", tip}})
+		o.httpVerifyRaw(c, api, hdr, longest, excess, []byte(`[{},{"merkleRoot":"`+gr+`"},null]`), []mrItem{{"", 0}, {gr, 0}, {"", 0}})
 	}
 	c.Rig.Cfg.MerkleRoot.MaxBlockHeightExcess = 6
 	if after := core.Digest(core.DumpHeaders(c.Rig.DB)); after != before {
@@ -203,6 +209,12 @@ func (o *c02) httpVerify(c *core.Ctx, api *core.API, hdr map[string]string, long
 		body[i] = reqItem{it.Root, it.Height}
 	}
 	b, _ := json.Marshal(body)
+	o.httpVerifyRaw(c, api, hdr, longest, excess, b, l)
+}
+
+// httpVerifyRaw posts the body as it is and expects the verdicts of the given items (what the
+// body means once omitted fields are read as their zero values).
+func (o *c02) httpVerifyRaw(c *core.Ctx, api *core.API, hdr map[string]string, longest []*core.MHeader, excess int, b []byte, l []mrItem) {
 	r := api.Do("POST", "/api/v1/chain/merkleroot/verify", b, hdr)
 	o.rep.Executions++
 	var resp struct {
@@ -228,7 +240,7 @@ func (o *c02) httpVerify(c *core.Ctx, api *core.API, hdr map[string]string, long
 		o.rep.Evaluations++
 		g := resp.Confirmations[i]
 		if g.Confirmation != want.State || g.BlockHash != want.Hash || g.MerkleRoot != it.Root || g.BlockHeight != it.Height {
-			o.viol(c, "http.verdict."+want.State+"->"+g.Confirmation, fmt.Sprintf("item %d of %d (root %s.. height %d)", i, len(l), it.Root[:8], it.Height), want, g)
+			o.viol(c, "http.verdict."+want.State+"->"+g.Confirmation, fmt.Sprintf("item %d of %d (root %.8s.. height %d) of body %s", i, len(l), it.Root, it.Height, trunc(b)), want, g)
 		}
 		if sev(want.State) > sev(worst) {
 			worst = want.State
